@@ -5,65 +5,23 @@ C17 — Every opening-book line is a legal game.
 `Book.walkModel` walks the whole trie from `INITIAL_BOOOK_MOVES` and plays every move with the
 model's checked `move_new` from the standard position, with no promotion piece.
 
-Trusted base note: `book_walk_ok` is closed by `native_decide` (axiom `Lean.ofReduceBool`, i.e.
-trust in the Lean compiler/interpreter for this one evaluation) because kernel evaluation of
-29 037 legality checks is out of reach (≈0.1 s per node); everything else is kernel-checked.
 -/
-import ChessVerif.Model.Book
+import ChessVerif.Props.C17.Basic
+import ChessVerif.Proofs.BookWalk.All
 
 namespace Chess.Props.C17
 open Chess Chess.Book
 
-/-- traversal from any node moves to strictly smaller indices: children and next sibling -/
-theorem step_decreases (index : Nat) (s d : Sq) (c n : Nat) (h : step index = .yield s d c n) :
-    c < index ∧ n < index := by
-  unfold step at h
-  split at h
-  · cases h
-  · simp only at h
-    split at h
-    · cases h
-    · split at h
-      · cases h
-      · split at h
-        · cases h
-        · split at h
-          · injection h with _ _ h3 h4
-            subst h3 h4
-            constructor <;> omega
-          · cases h
-
-/-- hence traversal from any node terminates: `index + 1` units of fuel always suffice -/
-theorem visit_fuel {β : Type} (play : β → Move → Option β) :
-    ∀ (fuel index : Nat) (b : β) (depth : Nat) (t : Tally), index < fuel →
-      (visit play fuel index b depth t).fuelOut = t.fuelOut := by
-  intro fuel
-  induction fuel with
-  | zero => intro index b depth t h; omega
-  | succ fuel ih =>
-    intro index b depth t h
-    unfold visit
-    split
-    · rfl
-    · rfl
-    · rename_i s d children next hst
-      have hd := step_decreases index s d children next hst
-      simp only []
-      rw [ih next b depth _ (by omega)]
-      split
-      · rfl
-      · rw [ih children _ (depth + 1) _ (by omega)]
-
-/-- a read outside the table is reported, never performed: `step` answers `.oob` for every index ≥ `BOOK_SIZE` -/
-theorem step_oob (index : Nat) (h : Gen.Book.bookSize ≤ index) : step index = .oob := by
-  unfold step; simp [h]
-
 /-- **the whole book** (all 29 037 nodes): no move is illegal in the position reached, no read leaves
-the table, the walk terminates -/
-theorem book_walk_ok : walkModel.illegal = 0 ∧ walkModel.oob = 0 ∧ walkModel.fuelOut = 0 := by
-  native_decide
+the table, the walk terminates.  Checked by the kernel alone (`Proofs/BookWalk`): table-shape and
+count facts plus 193 index ranges of legality checks, each a `decide +kernel`, assembled by lemmas
+proved for every tally; the evaluation runs on copies of the model's table accessors, make-move and
+generator that are proved equal to the model's (no `native_decide`). -/
+theorem book_walk_ok : walkModel.illegal = 0 ∧ walkModel.oob = 0 ∧ walkModel.fuelOut = 0 :=
+  Proofs.BookWalk.book_walk_ok'
 
 /-- the walk is not vacuous: it visits 29 037 nodes over 29 036 moves -/
-theorem book_walk_size : walkModel.nodes = 29037 ∧ walkModel.edges = 29036 := by native_decide
+theorem book_walk_size : walkModel.nodes = 29037 ∧ walkModel.edges = 29036 :=
+  Proofs.BookWalk.book_walk_size'
 
 end Chess.Props.C17
